@@ -392,6 +392,11 @@ func c14Judge(r *mon.Run, res *childResult, seqTotals map[string]uint64, evalTot
 			*loadCrashed++
 			r.Event("run_load_shutdown")
 			r.Class("phase:shutdown-under-load-crashed")
+		case !load && res.phase("quiescent") != nil && strings.Contains(stack, "bfdSend).Send"):
+			// a BFD session's transmit timer fired inside the Shutdown of the
+			// otherwise idle data plane: BFD senders are load (see Assumptions)
+			key = "C14:shutdown:panic:" + site
+			what = "data plane died during Shutdown (idle except for a BFD session transmitting): " + msg
 		case !load && res.phase("quiescent") != nil:
 			key = "C14:panic:quiescent-shutdown:" + site
 			what = "data plane died during Shutdown of an idle data plane: " + msg
